@@ -335,7 +335,7 @@ func claimPairing(c *Ctx) {
 		for _, s := range sets {
 			st := s.R
 			dep := canon(fieldOfStruct(st, "Deposit"))
-			ok := dep != nil && okTotal && dep.Op == "res" && dep.Name == "1" && dep.Args[0].String() == total.Args[0].String()
+			ok := dep != nil && okTotal && dep.Op == "res" && dep.Name == "1" && (dep.Args[0].String() == total.Args[0].String() || ir.StripZeroAlts(dep.Args[0]).String() == ir.StripZeroAlts(total.Args[0]).String())
 			r.Require(ok, "A3.claim-pairing", key+"|deposit:=remaining", pos(c, s.Eff.Site), "the stored Deposit is the remaining-deposit result of the same claim computation", fmt.Sprint(dep))
 			if okTotal {
 				ca := total.Args[0].Args
